@@ -22,12 +22,31 @@ PROPS = {
         thorough=T(16, 50, 3000),
         assumptions=BECH32_ASSUME,
     ),
+    "C14": dict(
+        pkg="c14",
+        quick=T(2, 1, 600),
+        thorough=T(16, 80, 3000),
+        assumptions=[
+            "harness/ref/trit (integer arithmetic from TIP-5, self-checked on the TIP-5 examples) is the specification of b1t6/b1t8 and of the tryte alphabet",
+            "only trits in {-1,0,1} and trytes in 9A-Z are generated; behaviour outside is documented as undefined",
+        ],
+    ),
     "C16": dict(
         pkg="c16",
         quick=T(4, 1, 600),
         thorough=T(16, 60, 3400),
         assumptions=BECH32_ASSUME + [
             "syndrome argument: the checksum is measured black-box through Encode; that Decode rejects exactly the strings with a non-zero syndrome is property C04/C05 plus the end-to-end sub-checks here",
+        ],
+    ),
+    "C19": dict(
+        pkg="c19",
+        quick=T(4, 1, 600),
+        thorough=T(16, 50, 3000, fuzz=[dict(name="FuzzParseBech32", count=2000000)]),
+        assumptions=BECH32_ASSUME + [
+            "golang.org/x/crypto/blake2b is trusted for the address hashes and the migration checksum",
+            "harness/ref/trit is the specification of b1t6 and the tryte alphabet",
+            "the table (0x00,32) (0x08,20) (0x10,20) and the four prefixes iota/atoi/smr/rms are the 'known' versions and prefixes of the statement",
         ],
     ),
     "C10": dict(
